@@ -514,6 +514,7 @@ Lemma bare_token : forall tok : string,
   contains_char "010"%char tok = false -> parse_decorated_jwt tok = tok.
 Proof. intros tok H. unfold parse_decorated_jwt. now rewrite find_all_nolf. Qed.
 
+#[local] Set Warnings "-unused-intro-pattern".
 Lemma format_user_config_unfold kind tok seed :
   format_user_config kind tok seed =
   match kind with
@@ -737,4 +738,79 @@ Proof.
   - unfold parse_decorated_jwt. rewrite H1. exact C1.
   - exact PS.
   - unfold parse_decorated_user_seed. rewrite PS, HP. reflexivity.
+Qed.
+
+(* ---------- the seed alone: the line scan ---------- *)
+Lemma drop_while_tok s : all_in tok_cls s = true -> drop_while is_space s = s.
+Proof.
+  destruct s as [|c s]; [reflexivity|]. cbn [all_in drop_while]. intros H.
+  apply andb_true_iff in H. destruct H as [H _]. now rewrite (tok_not_space _ H).
+Qed.
+Lemma srev_cons c s : srev (String c s) = srev s ++ String c "".
+Proof. change (String c s) with (String c "" ++ s). now rewrite srev_app. Qed.
+Lemma all_in_srev c s : all_in c (srev s) = all_in c s.
+Proof.
+  induction s as [|ch s IH]; [reflexivity|].
+  rewrite srev_cons, all_in_app, IH. cbn [all_in]. now rewrite andb_true_r, andb_comm.
+Qed.
+Lemma trim_space_tok s : all_in tok_cls s = true -> trim_space s = s.
+Proof.
+  intros H. unfold trim_space. rewrite (drop_while_tok s H).
+  rewrite drop_while_tok by now rewrite all_in_srev. apply srev_involutive.
+Qed.
+
+Lemma dseed_lines K ts :
+  dseed "" K ts =
+  banner1 ++ String lf (banner2 ++ String lf (banner3 ++ String lf ("" ++ String lf
+  (("-----BEGIN " ++ K ++ " NKEY SEED-----") ++ String lf (ts ++ String lf
+  (("------END " ++ K ++ " NKEY SEED------") ++ String lf ("" ++ String lf (stars ++ String lf "")))))))).
+Proof.
+  unfold dseed, lf, banner1, banner2, banner3, stars. sapp_norm. reflexivity.
+Qed.
+
+Lemma find_cons_false {A} (P : A -> bool) x l : P x = false -> find P (x :: l) = find P l.
+Proof. intros H. simpl. now rewrite H. Qed.
+Lemma find_cons_true {A} (P : A -> bool) x l : P x = true -> find P (x :: l) = Some x.
+Proof. intros H. simpl. now rewrite H. Qed.
+
+Lemma seed_line_scan K ts :
+  K = "OPERATOR" \/ K = "ACCOUNT" ->
+  all_in tok_cls ts = true -> seed_prefixed ts = true ->
+  find (fun line => seed_prefixed (trim_space line)) (split lf (dseed "" K ts)) = Some ts.
+Proof.
+  intros HK Ht Hp. rewrite dseed_lines.
+  assert (Hf : sep_free lf ts = true) by (unfold sep_free, lf; now rewrite tok_no_lf).
+  destruct HK as [->| ->].
+  - rewrite !split_app_sep by (reflexivity || exact Hf).
+    rewrite !find_cons_false by reflexivity.
+    apply find_cons_true. now rewrite trim_space_tok.
+  - rewrite !split_app_sep by (reflexivity || exact Hf).
+    rewrite !find_cons_false by reflexivity.
+    apply find_cons_true. now rewrite trim_space_tok.
+Qed.
+
+Lemma user_parser_refuses : forall (seed d : string),
+  all_in tok_cls (trim_space seed) = true ->
+  (has_prefix "SO" (trim_space seed) = true \/ has_prefix "SA" (trim_space seed) = true) ->
+  decorate_seed seed = Some d ->
+  parse_decorated_seed d = Some (trim_space seed) /\ parse_decorated_user_seed d = None.
+Proof.
+  intros seed d Hs HP HD.
+  set (ts := trim_space seed) in *.
+  assert (G : exists K, (K = "OPERATOR" \/ K = "ACCOUNT") /\ seed_kind ts = Some K /\
+                        seed_prefixed ts = true /\ has_prefix "SU" ts = false /\ ts <> "").
+  { destruct HP as [HP|HP]; pose proof HP as HP'; apply has_prefix_spec in HP'; destruct HP' as [r Er].
+    - exists "OPERATOR". split; [now left|]. unfold seed_prefixed. rewrite HP. rewrite Er.
+      split; [apply seed_kind_SO|]. split; [reflexivity|]. split; [reflexivity|discriminate].
+    - exists "ACCOUNT". split; [now right|]. unfold seed_prefixed. rewrite HP. rewrite Er.
+      split; [apply seed_kind_SA|]. split; [reflexivity|]. split; [reflexivity|discriminate]. }
+  destruct G as (K & HK & Hk & Hpre & Hsu & Hne).
+  unfold ts in Hk. rewrite (decorate_seed_dseed _ _ Hk) in HD. fold ts in HD.
+  assert (Ed : d = dseed "" K ts) by congruence. subst d. clear HD.
+  assert (HKlf : contains_char "010"%char K = false) by (destruct HK as [->| ->]; reflexivity).
+  destruct (find_all_dseed "" "" K ts) as (cs & H & C); auto; [now left|].
+  cbn [append] in H.
+  assert (PS : parse_decorated_seed (dseed "" K ts) = Some ts).
+  { unfold parse_decorated_seed. rewrite H. rewrite seed_line_scan by assumption. now rewrite Hpre. }
+  split; [exact PS|]. unfold parse_decorated_user_seed. now rewrite PS, Hsu.
 Qed.
